@@ -148,9 +148,37 @@ def run(ctx):
             open(inp2, "wb").write(mutate(rng, base_file(rng)[2])[0])
             args += [inp2]; otag = "two-files"
         jobs.append(dict(i=i, args=args, tag=tag, otag=otag, fmt=fmt, out=out, inp=inp))
+    # capacity boundaries of the sequence array (grown in steps of 512) and of the writers' line table (grown in steps of 1024 lines):
+    # record counts around 512/1024 in the first of several files, and outputs whose line count lands exactly on a table boundary
+    for k, nrec in enumerate([511, 512, 513, 1024] if ctx.quick else [510, 511, 512, 513, 1023, 1024, 1025, 1536, 2048]):
+        i = N + k
+        recs = [("r%d" % x, gen.rand_seq(rng, "ACGT", rng.randint(4, 9))) for x in range(nrec)]
+        inp = os.path.join(sc, "c05_%d.in" % i)
+        open(inp, "w").write(gen.fasta_text(recs))
+        inp2 = os.path.join(sc, "c05_%d.in2" % i)
+        open(inp2, "w").write(gen.fasta_text([("x%d" % x, gen.rand_seq(rng, "ACGT", 6)) for x in range(rng.choice([1, 3]))]))
+        out = os.path.join(sc, "c05_%d.out" % i)
+        fmt = ["fasta", "msf", "clu"][k % 3]
+        jobs.append(dict(i=i, args=["-i", inp, "-o", out, "-f", fmt, "-n", "2", inp2], tag="capacity-%d" % nrec, otag="two-files", fmt=fmt, out=out, inp=inp))
+    for k, (nrec, L) in enumerate([(1017, 8), (1015, 8), (3, 30500 if not ctx.quick else 0), (2, 30700), (339, 150), (203, 280)]):
+        if L == 0:
+            continue
+        i = N + 50 + k
+        base = gen.rand_seq(rng, "ACDEFGHIKLMNPQRSTVWY", L)
+        recs = [("w%d" % x, base if L > 1000 else gen.mutate(rng, base, "ACDEFGHIKLMNPQRSTVWY", 0.05, 0.0)) for x in range(nrec)]
+        inp = os.path.join(sc, "c05_%d.in" % i)
+        open(inp, "w").write(gen.fasta_text(recs))
+        for fmt in ("msf", "clu"):
+            out = os.path.join(sc, "c05_%d_%s.out" % (i, fmt))
+            jobs.append(dict(i=i, args=["-i", inp, "-o", out, "-f", fmt, "-n", "4"], tag="line-table-%dx%d" % (nrec, L), otag="plain", fmt=fmt, out=out, inp=inp))
 
     def one(j):
-        p = C.sh([cli] + j["args"] + ["-q"], timeout=20, env=dict(C.SAN_ENV_LEAK, LSAN_OPTIONS=C.SAN_ENV_LEAK["LSAN_OPTIONS"] + ":exitcode=0"))
+        env = dict(C.SAN_ENV_LEAK, LSAN_OPTIONS=C.SAN_ENV_LEAK["LSAN_OPTIONS"] + ":exitcode=0")
+        p = C.sh([cli] + j["args"] + ["-q"], timeout=20, env=env)
+        if p.returncode == -999:
+            # not finished within 20 s: on a loaded machine that is not yet a hang -- repeat alone with a generous limit before saying so
+            p = C.sh([cli] + j["args"] + ["-q"], timeout=300, env=env)
+            j["slow"] = True
         j["rc"] = p.returncode
         j["err"] = p.stderr.decode(errors="replace")[-4000:]
         j["so"] = p.stdout.decode(errors="replace")[-2000:]
@@ -168,7 +196,7 @@ def run(ctx):
         ctx.evaluations += 1
         why = None
         if j["rc"] == -999:
-            why = "hang: no termination within 20 s"
+            why = "hang: no termination within 20 s, nor within 300 s when repeated alone"
         elif "ERROR: AddressSanitizer" in j["err"] or "runtime error:" in j["err"] or "AddressSanitizer:DEADLYSIGNAL" in j["err"]:
             why = "memory error / undefined behaviour reported by the sanitizer"
         elif j["rc"] < 0:
